@@ -28,6 +28,12 @@ CLAIMED = {
  'C06': dict(
   text="For every enumerated configuration (direction spelled empty/asc/ASC/desc/Desc, lexicographic or numeric format) and per-line shape of up to N content lines, and every value of the key and blank bytes, Z3 shows on the MIR of KeepSortedValidator::validate and its helpers: a violation is reported iff some key is strictly out of order w.r.t. its predecessor (bytewise, or as integers under numeric; equal neighbours are in order), exactly one, designating the first such key; the verdict does not depend on the is_content_modified / tag-modified flags.",
   note="Trusted: interpreter, string models incl. the integer fragment of f64 parsing/comparison. Stubs as in C10. Not decided: keep-sorted-pattern (regex) forms, decimal/exponent/inf/nan numerics, non-ASCII keys, more than 5 lines."),
+ 'C07': dict(
+  text="For every enumerated per-line shape of up to N content lines in the three key forms (trimmed line; `value` group of k=(?P<value>[ab]+); whole match of [ab]+) and every value of all bytes, Z3 shows on the MIR of KeepUniqueValidator::validate: a violation iff two keys are equal, exactly one, on the first line whose key occurred before, with the range on that key; blank and non-matching lines ignored; verdict independent of the modified flags.",
+  note="Trusted: interpreter, string/HashSet models, the reference regex matcher mirsym/rexmodel.py (not the regex crate; differentially tested against Python re and validated on sampled witnesses against the real binary). Not decided: other patterns, non-ASCII, more than 5 lines."),
+ 'C08': dict(
+  text="For six patterns (^a+$, a, ^[ab]$, ^.*b$, ^$, ^a*b+$), every enumerated per-line shape of up to N lines and every value of the key/blank bytes over {a,b,c,space,tab}, Z3 shows on the MIR of LinePatternValidator::validate: a violation iff some trimmed non-blank line is outside the pattern's language (written independently as a formula over the key bytes), exactly one, on the first such line, with the range on the trimmed text.",
+  note="Trusted: interpreter, string models, the reference regex matcher mirsym/rexmodel.py (the regex crate is not encoded). Every other pattern is outside the claim."),
 }
 
 NOT_APPLICABLE = {
